@@ -5,6 +5,7 @@ import (
 	"encoding/json"
 	"errors"
 	"fmt"
+	zlog "github.com/rs/zerolog/log"
 	"os"
 	"sync"
 	"testing"
@@ -472,6 +473,29 @@ func emit(l *zerolog.Logger, e LEvt) int {
 	case "err":
 		l.Err(errors.New("boom")).Msg("m")
 		return int(zerolog.ErrorLevel)
+	case "pkgprint", "pkgprintf", "pkginfo", "pkglog", "pkgerr":
+		// the same through the package-level functions of github.com/rs/zerolog/log, the global logger
+		// being this one for the moment
+		old := zlog.Logger
+		zlog.Logger = *l
+		defer func() { zlog.Logger = old }()
+		switch e.Via {
+		case "pkgprint":
+			zlog.Print("m")
+			return int(zerolog.DebugLevel)
+		case "pkgprintf":
+			zlog.Printf("%s and no more", "m")
+			return int(zerolog.DebugLevel)
+		case "pkginfo":
+			zlog.Info().Msg("m")
+			return int(zerolog.InfoLevel)
+		case "pkglog":
+			zlog.Log().Msg("m")
+			return int(zerolog.NoLevel)
+		default:
+			zlog.Err(errors.New("boom")).Msg("m")
+			return int(zerolog.ErrorLevel)
+		}
 	}
 	l.WithLevel(zerolog.Level(e.Lvl)).Msg("m")
 	return e.Lvl
@@ -513,7 +537,7 @@ func TestRapidThroughLogger(t *testing.T) {
 				cl.Lvl = 7 // WithLevel(Disabled): never written, and rejected before the sampler is asked
 			}
 			c.Events = append(c.Events, LEvt{Lvl: cl.Lvl, Now: cl.Now, Global: rapid.SampledFrom([]int{-1, -1, -1, 0, 1, 3}).Draw(rt, "gl"), Disable: rapid.IntRange(0, 5).Draw(rt, "dis") == 0,
-				Via: rapid.SampledFrom([]string{"", "", "method", "method", "log", "write", "print", "printf", "println", "err"}).Draw(rt, "via")})
+				Via: rapid.SampledFrom([]string{"", "", "method", "method", "log", "write", "print", "printf", "println", "err", "pkgprint", "pkgprintf", "pkginfo", "pkglog", "pkgerr"}).Draw(rt, "via")})
 		}
 		msg, nt := runLogger(c)
 		b, _ := json.Marshal(c)
